@@ -58,6 +58,8 @@ type WS struct {
 	Algo    string            `json:"algo"`
 	// Previous remembers the content a file had before its last edit (so that a history can revert it)
 	Previous map[string]string `json:"previous,omitempty"`
+	// Remote: configure the S3 remote cache (bucket "bkt", prefix "pfx"); the endpoint comes from the environment
+	Remote bool `json:"remote,omitempty"`
 }
 
 func Label(pkg, name string) string { return "//" + pkg + ":" + name }
@@ -581,6 +583,9 @@ func (w WS) Render() map[string]string {
 		algo = "xxh3"
 	}
 	files["grog.toml"] = fmt.Sprintf("num_workers = %d\nhash_algorithm = %q\nlog_level = \"info\"\n", workers, algo)
+	if w.Remote {
+		files["grog.toml"] += "\n[cache]\nbackend = \"s3\"\n\n[cache.s3]\nbucket = \"bkt\"\nprefix = \"pfx\"\n"
+	}
 	return files
 }
 
